@@ -171,9 +171,16 @@ class Extractor:
             else:
                 ret = ast.unparse(r)
                 r_for_alt = r
+            # the annotation as written (quote style of literals inside it) is as good as CPython's rendering
+            seg = ast.get_source_segment(self.source, r_for_alt)
+            if seg: ret_alt.append(seg)
+            # a string in type position is a forward reference and may be shown by its content; the
+            # arguments of Literal[...] and the metadata of Annotated[...] are values and stay as they are
+            for mode in ("src", "repr"):
+                ret_alt.append(self.lenient_annotation(r_for_alt, mode))
             if isinstance(r_for_alt, ast.Constant) and isinstance(r_for_alt.value, str):
                 # string forward reference: quoted source or its content are both fine
-                ret_alt = [r_for_alt.value, '"%s"' % r_for_alt.value, "'%s'" % r_for_alt.value]
+                ret_alt += [r_for_alt.value, '"%s"' % r_for_alt.value, "'%s'" % r_for_alt.value]
         doc = None
         if fn.body and isinstance(fn.body[0], ast.Expr) and isinstance(fn.body[0].value, ast.Constant) and isinstance(fn.body[0].value.value, str):
             doc = inspect.cleandoc(fn.body[0].value.value)
@@ -185,6 +192,24 @@ class Extractor:
             e16, eb = self.pos(nt.end[0], nt.end[1])
             rec.update(name_line=nt.start[0], name_start=s16, name_end=e16, name_start_b=sb, name_end_b=eb)
         return rec
+
+    def lenient_annotation(self, n, mode):
+        keep = lambda x: (ast.get_source_segment(self.source, x) or ast.unparse(x)) if mode == "src" else ast.unparse(x)
+        R = lambda x: self.lenient_annotation(x, mode)
+        if isinstance(n, ast.Constant) and isinstance(n.value, str): return n.value
+        if isinstance(n, ast.Name): return n.id
+        if isinstance(n, ast.Attribute): return "%s.%s" % (R(n.value), n.attr)
+        if isinstance(n, ast.BinOp) and isinstance(n.op, ast.BitOr): return "%s | %s" % (R(n.left), R(n.right))
+        if isinstance(n, ast.List): return "[%s]" % ", ".join(R(e) for e in n.elts)
+        if isinstance(n, ast.Tuple): return ", ".join(R(e) for e in n.elts)
+        if isinstance(n, ast.Subscript):
+            base = R(n.value)
+            last = base.rsplit(".", 1)[-1]
+            if last == "Literal": return "%s[%s]" % (base, keep(n.slice) if not isinstance(n.slice, ast.Tuple) else ", ".join(keep(e) for e in n.slice.elts))
+            if last == "Annotated" and isinstance(n.slice, ast.Tuple):
+                return "%s[%s]" % (base, ", ".join(R(e) if i == 0 else keep(e) for i, e in enumerate(n.slice.elts)))
+            return "%s[%s]" % (base, R(n.slice))
+        return keep(n)
 
     def add_param_usages(self, fn, skip):
         for p in self.params(fn):
@@ -272,7 +297,15 @@ class Extractor:
                         if isinstance(t, ast.Name):
                             s16, sb = self.ast_pos(t.lineno, t.col_offset)
                             e16, eb = self.ast_pos(t.end_lineno, t.end_col_offset)
-                            self.fixtures.append(dict(name=t.id, func=None, line=st.lineno, end_line=st.lineno, scope="function", autouse=False, deps=[],
+                            # the decorator call's arguments mean what they mean above a def
+                            dec = v.func
+                            fname = t.id
+                            nk = kw(dec, "name")
+                            if isinstance(nk, ast.Constant) and isinstance(nk.value, str): fname = nk.value
+                            sk = kw(dec, "scope")
+                            fscope = sk.value if isinstance(sk, ast.Constant) and isinstance(sk.value, str) and sk.value in SCOPES else "function"
+                            ak = kw(dec, "autouse")
+                            self.fixtures.append(dict(name=fname, func=None, line=st.lineno, end_line=st.lineno, scope=fscope, autouse=isinstance(ak, ast.Constant) and ak.value is True, deps=[],
                                                       is_generator=False, yield_line=None, ret=None, ret_alt=[], doc=None,
                                                       name_line=t.lineno, name_start=s16, name_end=e16, name_start_b=sb, name_end_b=eb, assignment=True))
                 if any(isinstance(t, ast.Name) and t.id == "pytestmark" for t in st.targets):
